@@ -91,6 +91,8 @@ theorem step_agnostic (o : Ops) (s : MSt) (e : MEv) (h : RefFreeEv e) :
   | start tag attrs =>
     simp only [mstep, startTag, startTag0]
     rw [startPre_agnostic o s.c tag attrs h]
+    -- stage 4: `_start_link` uses the back end only through `resolve_uri`, which is the same parameter for both
+    rfl
   | stop tag => rfl
   | data t => rfl
   | ns p u => rfl
